@@ -1,0 +1,203 @@
+//go:build verif
+
+// Contracts for package session, read by /verif/engine (govc). Comment-only.
+package session
+
+// ---- ghost state -------------------------------------------------------------------
+// sentN/sentAt: the messages handed to Router.Send successfully, in order.
+// resentN/resentAt: the stored messages handed to Router.SendBatch (retransmissions).
+// everLogged: the session has been in state SuccessfulLogged at some point.
+// sendFailed: some send of the library failed (store/handler/transport refusal).
+// timersStarted: start() has been run.
+//@ ghost sentN int
+//@ ghost sentAt map
+//@ ghost resentN int
+//@ ghost resentAt map
+//@ ghost everLogged bool
+//@ ghost sendFailed bool
+//@ ghost timersStarted bool
+//@ ghost routerStopped bool
+//@ ghost clock int
+//@ ghost trigN int
+//@ ghost trigAt map
+
+// counters of an arbitrary store (ghost) or of the bundled one (its fields)
+//@ ghostfield gOut int
+//@ ghostfield gIn int
+//@ spec cOut(c CounterStorage) int = ite(istype(c, *memory.Storage), c.(*memory.Storage).counterOutgoing, gOut(c))
+//@ spec cIn(c CounterStorage) int = ite(istype(c, *memory.Storage), c.(*memory.Storage).counterIncoming, gIn(c))
+
+//@ interface CounterStorage
+//@   method GetNextSeqNum(storageID fix.StorageID) (n int, err error):
+//@     modifies self.*, gOut(self), gIn(self), sendFailed
+//@     ensures[C05] imp(err == nil && storageID.Side != fix.Incoming, n == old(cOut(self)) + 1 && cOut(self) == n && cIn(self) == old(cIn(self)))
+//@     ensures[C05,C19] imp(err != nil, sendFailed) && imp(err == nil, sendFailed == old(sendFailed))
+//@   method GetCurrSeqNum(storageID fix.StorageID) (n int, err error):
+//@     pure
+//@     ensures[C10] imp(err == nil && storageID.Side == fix.Incoming, n == cIn(self))
+//@   method SetSeqNum(storageID fix.StorageID, seqNum int) (err error):
+//@     modifies self.*, gOut(self), gIn(self)
+//@     ensures[C10] imp(err == nil && storageID.Side == fix.Incoming, cIn(self) == seqNum && cOut(self) == old(cOut(self)))
+
+// stored(ms, k): the message saved under sequence number k (ghost for foreign stores)
+//@ ghostfield gStored map
+//@ ghostfield gHas map
+
+//@ interface MessageStorage assumed
+//@   method Save(storageID fix.StorageID, msg simplefixgo.SendingMessage, msgSeqNum int) (err error):
+//@     modifies gStored(self), gHas(self)
+//@     ensures[C10,C19] imp(err == nil, gStored(self) == upd(old(gStored(self)), msgSeqNum, msg) && gHas(self) == upd(old(gHas(self)), msgSeqNum, 1))
+//@     ensures[C10,C19] imp(err != nil, gStored(self) == old(gStored(self)) && gHas(self) == old(gHas(self)))
+//@   method Messages(storageID fix.StorageID, msgSeqNumFrom int, msgSeqNumTo int) (res []simplefixgo.SendingMessage, err error):
+//@     pure
+//@     forall j int
+//@     ensures[C10] imp(err == nil, msgSeqNumFrom <= msgSeqNumTo && len(res) == msgSeqNumTo - msgSeqNumFrom + 1)
+//@     ensures[C10] imp(err == nil && msgSeqNumFrom <= j && j <= msgSeqNumTo, sel(gHas(self), j) == 1 && nth(res, j - msgSeqNumFrom) == sel(gStored(self), j))
+
+//@ interface Handler assumed
+//@   method Send(message simplefixgo.SendingMessage) (err error):
+//@     modifies sentN, sentAt, sendFailed
+//@     ensures[C05,C06,C07,C14,C15,C16] imp(err == nil, sentN == old(sentN) + 1 && sentAt == upd(old(sentAt), old(sentN), message) && sendFailed == old(sendFailed))
+//@     ensures[C05,C06,C07,C14,C15,C16] imp(err != nil, sentN == old(sentN) && sentAt == old(sentAt) && sendFailed)
+//@   method SendBatch(messages []simplefixgo.SendingMessage) (err error):
+//@     modifies resentN, resentAt
+//@     forall j int
+//@     ensures[C10,C07] imp(err == nil, resentN == old(resentN) + len(messages))
+//@     ensures[C10,C07] imp(err == nil && 0 <= j && j < len(messages), sel(resentAt, old(resentN) + j) == nth(messages, j))
+//@     ensures[C10,C07] imp(j < old(resentN), sel(resentAt, j) == old(sel(resentAt, j)))
+//@   method HandleIncoming(msgType string, handle simplefixgo.IncomingHandlerFunc) (id int64):
+//@     pure
+//@   method HandleOutgoing(msgType string, handle simplefixgo.OutgoingHandlerFunc) (id int64):
+//@     pure
+//@   method Stop():
+//@     modifies routerStopped
+//@     ensures[C09] routerStopped
+//@   method Context() (res context.Context):
+//@     pure
+
+//@ interface Unmarshaller assumed
+//@   method Unmarshal(msg messages.Builder, d []byte) (err error):
+//@     modifies mTestReqID(msg), mHeartBtInt(msg), mEncrypt(msg), mUser(msg), mPass(msg), mResetSeq(msg), mBeginSeqNo(msg), mEndSeqNo(msg), hSeq(hdr(msg)), hSender(hdr(msg)), hTarget(hdr(msg)), hTime(hdr(msg))
+//@     ensures[C14] imp(err == nil, mTestReqID(msg) == fieldOf(string(d), 112))
+//@ spec fieldOf(d string, tag int) string
+
+// ---- session state -----------------------------------------------------------------
+//@ field[C20] Session.state: guarded_by(stateMu)
+//@ field Session.LogonHandler: callback(pure)
+//@ field Session.errorHandler: callback(pure)
+//@ field Session.logonRequest: callback(pure)
+
+// sessWF: the configuration every constructor establishes (newSession, Opts.validate)
+//@ spec sessWF(s *Session) bool = s != nil && s.Opts != nil && s.Router != nil && s.counter != nil && s.messageStorage != nil && s.unmarshaller != nil && s.LogonSettings != nil && s.eventHandler != nil
+//@   && s.Opts.Tags != nil && s.Opts.SessionErrorCodes != nil
+//@   && s.Opts.MessageBuilders.LogonBuilder != nil && s.Opts.MessageBuilders.LogoutBuilder != nil && s.Opts.MessageBuilders.RejectBuilder != nil
+//@   && s.Opts.MessageBuilders.HeartbeatBuilder != nil && s.Opts.MessageBuilders.TestRequestBuilder != nil && s.Opts.MessageBuilders.ResendRequestBuilder != nil
+// sessInv: logged on only after a transition into SuccessfulLogged
+//@ spec sessInv(s *Session) bool = imp(s.state == SuccessfulLogged || s.state == WaitingTestReqAnswer, everLogged)
+//@ spec allowedBeforeLogon(m ref) bool = mrole(m) == 1 || mrole(m) == 2 || mrole(m) == 3
+
+//@ func (s *Session) CurrentTime() (t time.Time)
+//@   requires s != nil
+//@   modifies clock
+//@   ensures[C05] t >= old(clock) && clock == t
+
+//@ func (s *Session) IsLogged() (res bool)
+//@   pure
+//@   requires s != nil
+//@   ensures[C06,C07,C16] res == (s.state == SuccessfulLogged)
+
+//@ func (s *Session) changeState(state LogonState, isEventTriggerRequired bool)
+//@   requires s != nil && s.eventHandler != nil
+//@   modifies s.state, everLogged, trigN, trigAt, routerStopped, timersStarted
+//@   epilogue everLogged = old(everLogged) || state == SuccessfulLogged
+//@   ensures[C06,C07,C15,C09] s.state == state && everLogged == (old(everLogged) || state == SuccessfulLogged)
+//@   ensures[C09,C15] @event imp(isEventTriggerRequired && (state == SuccessfulLogged || state == WaitingLogoutAnswer || state == ReceivedLogoutAnswer || state == Disconnect), trigN == old(trigN) + 1 && sel(trigAt, old(trigN)) == eventOf(state))
+//@   ensures[C09,C15] @noevent imp(!isEventTriggerRequired, trigN == old(trigN) && trigAt == old(trigAt))
+//@ spec eventOf(state int) int = ite(state == SuccessfulLogged, utils.EventLogon, ite(state == WaitingLogoutAnswer, utils.EventRequest, ite(state == ReceivedLogoutAnswer, utils.EventLogout, utils.EventDisconnect)))
+
+//@ func (s *Session) send(msg messages.Message) (err error)
+//@   requires sessWF(s) && msg != nil && hdr(msg) != nil
+//@   requires[C07] @permitted everLogged || allowedBeforeLogon(msg)
+//@   modifies sentN, sentAt, sendFailed, clock, s.counter.*, gOut(s.counter), gIn(s.counter), hSeq(hdr(msg)), hSender(hdr(msg)), hTarget(hdr(msg)), hTime(hdr(msg))
+//@   call CurrentTime#1: witness sendT = ret
+//@   call GetNextSeqNum#1:
+//@     assert[C05] @numbered_under_lock held(s.mu)
+//@   call Send#1:
+//@     assert[C05] @enqueued_under_lock held(s.mu)
+//@   ensures[C05,C06,C14,C15,C16] @sent imp(err == nil, sentN == old(sentN) + 1 && sentAt == upd(old(sentAt), old(sentN), msg) && sendFailed == old(sendFailed))
+//@   ensures[C05] @seq imp(err == nil, hSeq(hdr(msg)) == old(cOut(s.counter)) + 1 && cOut(s.counter) == old(cOut(s.counter)) + 1)
+//@   ensures[C05] @ids imp(err == nil, hSender(hdr(msg)) == s.LogonSettings.SenderCompID && hTarget(hdr(msg)) == s.LogonSettings.TargetCompID)
+//@   ensures[C05] @time imp(err == nil, hTime(hdr(msg)) == tfmt(sendT, fix.TimeLayout) && sendT >= old(clock))
+//@   ensures[C19,C06,C14,C15,C16] @failed imp(err != nil, sentN == old(sentN) && sentAt == old(sentAt) && sendFailed)
+//@   ensures[C06,C07] @stable s.state == old(s.state)
+
+//@ func (s *Session) Send(msg messages.Message) (err error)
+//@   requires sessWF(s) && msg != nil && hdr(msg) != nil
+//@   requires[C07] everLogged || allowedBeforeLogon(msg)
+//@   modifies sentN, sentAt, sendFailed, clock, s.counter.*, gOut(s.counter), gIn(s.counter), hSeq(hdr(msg)), hSender(hdr(msg)), hTarget(hdr(msg)), hTime(hdr(msg))
+//@   ensures[C05] imp(err == nil, sentN == old(sentN) + 1 && sentAt == upd(old(sentAt), old(sentN), msg) && hSeq(hdr(msg)) == old(cOut(s.counter)) + 1)
+
+//@ func (s *Session) sendWithErrorCheck(msg messages.Message)
+//@   requires sessWF(s) && msg != nil && hdr(msg) != nil
+//@   requires[C07] @permitted everLogged || allowedBeforeLogon(msg)
+//@   modifies sentN, sentAt, sendFailed, clock, s.counter.*, gOut(s.counter), gIn(s.counter), hSeq(hdr(msg)), hSender(hdr(msg)), hTarget(hdr(msg)), hTime(hdr(msg))
+//@   ensures[C06,C14,C15,C16,C07] @sent imp(!sendFailed, sentN == old(sentN) + 1 && sentAt == upd(old(sentAt), old(sentN), msg))
+//@   ensures[C06,C14,C15,C16,C07] @atmost imp(sendFailed, (sentN == old(sentN) && sentAt == old(sentAt)) || old(sendFailed))
+//@   ensures[C06,C07] @stable s.state == old(s.state)
+
+// ---- rejects (C16) ---------------------------------------------------------------------
+//@ func (s *Session) MakeReject(reasonCode int, tag int, seqNum int) (res messages.RejectBuilder)
+//@   requires sessWF(s)
+//@   ensures[C16,C06] res != nil && fresh(res) && mrole(res) == 3 && hdr(res) != nil && fresh(hdr(res)) && mRefSeqNum(res) == seqNum && mRefTagID(res) == tag && mReason(res) == dec(reasonCode)
+
+// seqTag: the sequence-number tag as text; rejectFor: how a Reject refers to an offending message
+//@ spec seqTag(s *Session) string = dec(s.Opts.Tags.MsgSeqNum)
+//@ spec rejectFor(s *Session, r ref, d string) bool =
+//@   mrole(r) == 3 &&
+//@   imp(!hasField(d, seqTag(s)), mRefTagID(r) == s.Opts.Tags.MsgSeqNum) &&
+//@   imp(hasField(d, seqTag(s)) && !intRange(fieldVal(d, seqTag(s))), mRefTagID(r) == s.Opts.Tags.MsgSeqNum) &&
+//@   imp(hasField(d, seqTag(s)) && intRange(fieldVal(d, seqTag(s))), mRefSeqNum(r) == atoi(fieldVal(d, seqTag(s))))
+
+//@ func (s *Session) RejectMessage(msg []byte)
+//@   requires sessWF(s)
+//@   modifies sentN, sentAt, sendFailed, clock, s.counter.*, gOut(s.counter), gIn(s.counter)
+//@   ensures[C16,C06,C14,C15] @one imp(!sendFailed, sentN == old(sentN) + 1 && rejectFor(s, sel(sentAt, old(sentN)), string(msg)))
+//@   ensures[C16,C06,C14,C15] @atmost imp(sendFailed, (sentN == old(sentN) && sentAt == old(sentAt)) || old(sendFailed))
+//@   ensures[C16] @stable s.state == old(s.state)
+
+// ---- TestRequest (C14, C16, C07) ---------------------------------------------------------
+//@ closure (*Session).Run#TestRequest (data []byte) (ok bool)
+//@   anchor TestRequestBuilder
+//@   requires sessWF(s) && sessInv(s) && !sendFailed
+//@   modifies sentN, sentAt, sendFailed, clock, s.counter.*, gOut(s.counter), gIn(s.counter)
+//@   call Unmarshal#1: witness perr = ret
+//@   ensures[C16] @continues ok
+//@   ensures[C14] @echo imp(!sendFailed && perr == nil && old(s.state) == SuccessfulLogged, sentN == old(sentN) + 1 && mrole(sel(sentAt, old(sentN))) == 4 && mTestReqID(sel(sentAt, old(sentN))) == fieldOf(string(data), 112))
+//@   ensures[C16] @rejected imp(!sendFailed && (perr != nil || old(s.state) != SuccessfulLogged), sentN == old(sentN) + 1 && rejectFor(s, sel(sentAt, old(sentN)), string(data)))
+//@   ensures[C16] @stable s.state == old(s.state)
+
+// ---- Heartbeat (C16) --------------------------------------------------------------------
+//@ closure (*Session).Run#Heartbeat (data []byte) (ok bool)
+//@   anchor HeartbeatBuilder
+//@   requires sessWF(s) && sessInv(s) && !sendFailed
+//@   modifies sentN, sentAt, sendFailed, clock, s.counter.*, gOut(s.counter), gIn(s.counter), s.state, everLogged, trigN, trigAt, routerStopped, timersStarted
+//@   call Unmarshal#1: witness perr = ret
+//@   ensures[C16] @continues ok
+//@   ensures[C16] @rejected imp(!sendFailed && (perr != nil || old(s.state) != SuccessfulLogged), sentN == old(sentN) + 1 && rejectFor(s, sel(sentAt, old(sentN)), string(data)))
+//@   ensures[C16,C07] @silent imp(perr == nil && old(s.state) == SuccessfulLogged, sentN == old(sentN) && sentAt == old(sentAt))
+//@   ensures[C16] @stable (s.state == SuccessfulLogged) == (old(s.state) == SuccessfulLogged)
+
+// ---- Logout (C15, C16) --------------------------------------------------------------------
+//@ closure (*Session).Run#Logout (data []byte) (ok bool)
+//@   anchor LogoutBuilder
+//@   requires sessWF(s) && sessInv(s) && !sendFailed
+//@   modifies sentN, sentAt, sendFailed, clock, s.counter.*, gOut(s.counter), gIn(s.counter), s.state, everLogged, trigN, trigAt, routerStopped, timersStarted
+//@   call Unmarshal#1: witness perr = ret
+//@   forall k int
+//@   ensures[C16] @continues ok
+//@   ensures[C15] @ack imp(!sendFailed && perr == nil && old(s.state) == SuccessfulLogged, sentN == old(sentN) + 1 && mrole(sel(sentAt, old(sentN))) == 2 && s.state != SuccessfulLogged)
+//@   ensures[C15] @nosecond imp(perr == nil && old(s.state) == WaitingLogoutAnswer, sentN == old(sentN) && sentAt == old(sentAt) && s.state != SuccessfulLogged)
+//@   ensures[C15] @signalled imp(perr == nil && old(s.state) == WaitingLogoutAnswer, trigN > old(trigN) && sel(trigAt, old(trigN)) == utils.EventLogout)
+//@   ensures[C16] @rejected imp(!sendFailed && (perr != nil || (old(s.state) != SuccessfulLogged && old(s.state) != WaitingLogoutAnswer)), sentN == old(sentN) + 1 && rejectFor(s, sel(sentAt, old(sentN)), string(data)))
+//@   ensures[C16] @stable_on_error imp(perr != nil, s.state == old(s.state))
+//@   ensures[C16] @stable imp(old(s.state) != SuccessfulLogged, s.state != SuccessfulLogged)
